@@ -62,3 +62,11 @@ Theorem C09_prune_and_merge_tests_cover_every_list :
         :: map (fun f => ("self." ++ f ++ ".is_empty()")%string) (tl seven_lists)) = true.
 Proof. exact prune_tests_shape. Qed.
 Print Assumptions C09_prune_and_merge_tests_cover_every_list.
+
+(* the same tests compiled and read over the model's nodes: they ARE Model/Ops.v is_empty / is_compressible, on every node *)
+From WF Require Import Model.Tree Model.Ops.
+Theorem C09_regenerated_prune_tests_are_the_model_tests :
+  (exists je jc, all_conj gen_is_empty = Some je /\ all_conj gen_is_compressible = Some jc
+     /\ forall n, forallb (fun j => sem_conj j n) je = is_empty n /\ forallb (fun j => sem_conj j n) jc = is_compressible n).
+Proof. exact regenerated_prune_tests_are_the_model_tests. Qed.
+Print Assumptions C09_regenerated_prune_tests_are_the_model_tests.
